@@ -622,6 +622,52 @@ func genG02(repo string, w *Out) error {
 	default:
 		return fmt.Errorf("proxyHandler.writeResponse: writer switch %q is not a shape the model knows", hcases)
 	}
+	// the rest of proxyHandler.writeResponse and its helpers: header copy, Trailer announcement, trailers after the body
+	ath, err := ph.Func("addTrailerHeader")
+	if err != nil {
+		return err
+	}
+	athSrc := ph.Src(ath.Body)
+	reATH := regexp.MustCompile(`^\{ announcedTrailers := len\(tr\) if announcedTrailers == 0 \{ return 0 \} trailerKeys := make\(\[\]string, 0, announcedTrailers\) for k := range tr \{ trailerKeys = append\(trailerKeys, k\) \} rw\.Header\(\)\.Add\("Trailer", strings\.Join\(trailerKeys, ("(?:[^"\\]|\\.)*")\)\) return announcedTrailers \}$`)
+	am := reATH.FindStringSubmatch(athSrc)
+	if am == nil {
+		return fmt.Errorf("addTrailerHeader: body %q is not the shape the model knows", athSrc)
+	}
+	hsep, _ := strconv.Unquote(am[1])
+	w.DefStr("hw_trailer_sep", hsep)
+	ch, err := ph.Func("copyHeader")
+	if err != nil {
+		return err
+	}
+	if ph.Src(ch.Body) != "{ for k, vv := range src { for _, v := range vv { dst.Add(k, v) } } }" {
+		return fmt.Errorf("copyHeader: body %q is not the shape the model knows", ph.Src(ch.Body))
+	}
+	var hstm []string
+	for _, st := range hwr.Body.List {
+		if _, ok := st.(*ast.SwitchStmt); ok {
+			hstm = append(hstm, "SWITCH")
+			continue
+		}
+		txt := ph.Src(st)
+		if strings.HasPrefix(txt, "if err != nil {") && strings.Contains(txt, "panic(http.ErrAbortHandler)") {
+			hstm = append(hstm, "ABORT-ON-ERROR")
+			continue
+		}
+		if strings.HasPrefix(txt, "p.traceWroteResponse(") || strings.HasPrefix(txt, "if !skipTraceWroteResponse(") {
+			hstm = append(hstm, "TRACE")
+			continue
+		}
+		hstm = append(hstm, txt)
+	}
+	wantH := []string{"copyHeader(rw.Header(), res.Header)", "announcedTrailers := addTrailerHeader(rw, res.Trailer)", "rw.WriteHeader(res.StatusCode)",
+		"if f, ok := rw.(http.Flusher); ok { f.Flush() }", "var err error", "SWITCH", "ABORT-ON-ERROR", "res.Body.Close()",
+		"if len(res.Trailer) == announcedTrailers { copyHeader(rw.Header(), res.Trailer) } else { h := rw.Header() for k, vv := range res.Trailer { for _, v := range vv { h.Add(http.TrailerPrefix+k, v) } } }",
+		"TRACE"}
+	if strings.Join(hstm, " ;; ") != strings.Join(wantH, " ;; ") {
+		return fmt.Errorf("proxyHandler.writeResponse: statements %q are not the shape the model knows", hstm)
+	}
+	w.DefStr("hw_trailer_prefix", "Trailer:") // net/http.TrailerPrefix
+
 	if _, err := f.Func("flushAfterWriteWriter.Write"); err == nil {
 		fw, _ := f.Func("flushAfterWriteWriter.Write")
 		var fs []string
